@@ -41,6 +41,8 @@ def comp_txt(c):
         return act_txt(c[1])
     if c[0] == "when":
         return f"{cond_txt(c[1], c[2])} -> {act_txt(c[3])}"
+    if c[0] == "arg":       # the one-argument forms: stop(cond), skip(cond), fail_and_stop(cond)
+        return act_txt(c[2])[:-1] + cond_txt(c[1], False) + ")"
     return cond_txt(c[1], False)
 
 
@@ -60,6 +62,8 @@ def comp_lit(c):
         return f"CAct {act_lit(c[1])}"
     if c[0] == "when":
         return f"CWhen {cond_lit(c[1])} {blit(c[2])} {act_lit(c[3])}"
+    if c[0] == "arg":
+        return f"CArg {cond_lit(c[1])} {act_lit(c[2])}"
     return f"CCond {cond_lit(c[1])}"
 
 
@@ -76,6 +80,10 @@ def controls(fire):
     yield ("act", ("stop",))
     yield ("act", ("skip",))
     yield ("act", ("adv", 1))
+    yield ("arg", ("eq", fire), ("stop",))
+    yield ("arg", ("gt", fire), ("stop",))
+    yield ("arg", ("eq", fire), ("skip",))
+    yield ("arg", ("gt", fire), ("skip",))
 
 
 def programs(rng, quick):
